@@ -1040,23 +1040,23 @@ impl Monitor for M {
         vec![
             Phase::new("corpus-tfm", c.tfm.len().max(1) as u64 * 3).batch(2),
             Phase::new("corpus-pl", c.pl.len().max(1) as u64 * 3).batch(2),
-            Phase::new("gen", tier.pick(3_000, 300_000)).batch(8),
-            Phase::new("repack", tier.pick(2_000, 150_000)).batch(8),
+            Phase::new("gen", tier.pick(10_000, 300_000)).batch(8),
+            Phase::new("repack", tier.pick(6_000, 150_000)).batch(8),
         ]
     }
 
     fn floors(&self, tier: Tier) -> Vec<(&'static str, u64)> {
         let q = tier == Tier::Quick;
         vec![
-            ("chains_held", if q { 2_500 } else { 250_000 }),
+            ("chains_held", if q { 10_000 } else { 250_000 }),
             ("corpus-tfm:held", 90),
             ("corpus-pl:held", 60),
-            ("gen:held", if q { 1_500 } else { 150_000 }),
-            ("repack:held", if q { 1_000 } else { 75_000 }),
-            ("own_reader_compared", if q { 2_500 } else { 250_000 }),
-            ("b0_not_canonical(normalisation_changed_bytes)", if q { 800 } else { 60_000 }),
-            ("fonts_with_ligkern_replacements", if q { 1_000 } else { 100_000 }),
-            ("run_words_compared", if q { 2_000_000 } else { 200_000_000 }),
+            ("gen:held", if q { 6_000 } else { 150_000 }),
+            ("repack:held", if q { 3_500 } else { 75_000 }),
+            ("own_reader_compared", if q { 10_000 } else { 250_000 }),
+            ("b0_not_canonical(normalisation_changed_bytes)", if q { 3_000 } else { 60_000 }),
+            ("fonts_with_ligkern_replacements", if q { 4_000 } else { 100_000 }),
+            ("run_words_compared", if q { 10_000_000 } else { 200_000_000 }),
             ("feature:entrypoint_above_255", if q { 100 } else { 10_000 }),
             ("feature:several_labels_per_chain", if q { 300 } else { 30_000 }),
             ("feature:boundary_char", if q { 300 } else { 30_000 }),
